@@ -17,14 +17,16 @@ def replay(prop_id, path):
     return p.returncode
 
 
-def define(pid, propfile, insts, drivers, text, rule, assumptions=(), diag=None):
-    SPEC[pid] = dict(propfile=propfile, insts=insts, drivers=drivers, text=text, rule=rule)
+def define(pid, propfile, insts, drivers, text, rule, assumptions=(), diag=None, src=False):
+    SPEC[pid] = dict(propfile=propfile, insts=insts, drivers=drivers, text=text, rule=rule, src=src)
 
     def run(ck):
         ck.assumptions += list(assumptions)
         if ck.setup_generic():
             if propfile:
                 ck.compile_properties(propfile)
+            if src:
+                ck.source_tie()
             need_tables = bool(insts) or any(d != "crc" for d, _ in drivers)
             ok_tables = ck.tables() if need_tables else True
             if ok_tables:
@@ -69,7 +71,7 @@ define("C06", "Properties/C06.v", ["C06_inst.v"], [("msg", [])],
 define("C08", "Properties/C08.v", [], [("crc", [])],
        "Theorems: model of calc_crc24q = GF(2) remainder mod 0x1864CFB for all byte strings; self-check; xor-linearity; odd / burst<=24 / single / two-bit (distance < 2^23-1, order computed in-kernel) damage has non-zero CRC; the parse gate rejects it; validate=0 ignores the CRC bytes.",
        "byte strings of lengths 0..40,255..2000 (zeros/ones/single-bit/random/valid frames); all single-bit and adjacent-pair flips of sampled frames, random 2-bit, odd, burst<=24",
-       ["direct damage search samples frames; the theorems cover all"])
+       ["direct damage search samples frames; the theorems cover all"], src=True)
 define("C09", "Properties/C09.v", ["C09_inst.v"], [("msg", [])],
        "Theorems: the decoder's mask scans are the MSB-first positions of set bits; NSat/NSig/NCell = popcount = number of map entries; i-th satellite entry / k-th cell (satellite-major) labelled from the tables with the N/A marker for undefined ids, both label options; derived-label fields store exactly the map entry. Per run: the working tree's PRN/signal tables equal the pinned RTCM 10403.3 tables for all 7 constellations.",
        "MSM payloads of all 49 types x mask shapes (random, full, empty, last slot, reserved ids, >64 cells) x both label options")
@@ -99,7 +101,7 @@ define("C19", "Properties/C19.v", ["C18_inst.v"], [("helpers", [])],
 define("C07", "Properties/C07.v", ["C15_inst.v"], [("msg", [])],
        "Theorems: serialize gives 0xD3 + 16-bit length (top six bits zero) + payload + CRC-24Q, a well-formed frame, for every payload up to 1023 bytes; parse(serialize(m)) = m (equal object) with validation on or off; serialize(parse(f)) = f for every valid frame; CPython's bytes-literal printer and reader (modelled exactly) are inverse on every byte string, so eval(repr(m)) rebuilds the payload.",
        "builder payloads of all identities + unknown types at boundary sizes 2,3,255,256,1022,1023; eval(repr()) run for real on the implementation",
-       ["pyrepr/pyeval are a Gallina model of CPython's bytes literal syntax, validated against Python on all 256 byte values and quote mixes"])
+       ["pyrepr/pyeval are a Gallina model of CPython's bytes literal syntax, validated against Python on all 256 byte values and quote mixes"], src=True)
 define("C13", "Properties/C13.v", ["C02_inst.v"], [("msg", []), ("reader", [])],
        "Theorems (near-definitional by design): the model is a pure function of (tables, bytes, option): running any history of operations leaves the tables unchanged and the last result equals a fresh construction. The substance is the correspondence: every result obtained on the implementation after shuffled histories, interleaved failing parses and under 8 threads with a 1 microsecond switch interval is compared with this pure function, and a deep structural hash of all tables is compared before and after. PARTIAL: thread interleavings themselves cannot be exhibited by a Gallina function.",
        "corpus of all identities + failing payloads replayed in shuffled orders, twice, and by 8 threads; table hash before/after",
